@@ -450,12 +450,27 @@ def pat_term(p, anon=False):
 
 
 def pat_alternatives(p):
-    """Flatten top-level or-patterns."""
-    if p.get('k') == 'POr':
+    """Flatten or-patterns, nested ones included: `V(n, x @ (A | B))` is `V(n, x @ A) | V(n, x @ B)`."""
+    k = p.get('k')
+    if k == 'POr':
         out = []
         for x in p['pats']:
             out.extend(pat_alternatives(x))
         return out
+    if k in ('PTupleStruct', 'PTuple') and p.get('pats'):
+        combos = [[]]
+        for sp in p['pats']:
+            alts = pat_alternatives(sp)
+            combos = [c + [a] for c in combos for a in alts]
+            if len(combos) > 256:
+                return [p]
+        return [p] if len(combos) == 1 else [dict(p, pats=c) for c in combos]
+    if k == 'Bind' and p.get('sub'):
+        alts = pat_alternatives(p['sub'])
+        return [p] if len(alts) == 1 else [dict(p, sub=a) for a in alts]
+    if k in ('PRef', 'PBox', 'PDeref') and p.get('p'):
+        alts = pat_alternatives(p['p'])
+        return [p] if len(alts) == 1 else [dict(p, p=a) for a in alts]
     return [p]
 
 
